@@ -1,5 +1,5 @@
 (* Generic lemmas used by the C02 simulation proof (RelC02b.v): lookups in the observer after the
-   helper updates, folds over a shutdown order, the window flag W_C02 and its stickiness. *)
+   helper updates, folds over a shutdown order, the window flag W2 and its stickiness. *)
 From Coq Require Import List ZArith NArith Bool Lia.
 From RecordUpdate Require Import RecordSet.
 From PC.Base Require Import Assoc.
@@ -7,24 +7,24 @@ From PC.Sup Require Import Model Monitors Tactics Sim ObsFacts Effects RelCore.
 Import ListNotations RecordSetNotations.
 
 (* ---- the windows that the C02 theorem needs ---------------------------------------------------------- *)
-Definition W_C02 (o : obs) : bool := w_commit o || w_sdlag o.
+Definition W2 (o : obs) : bool := w_commit o || w_sdlag o.
 
-Lemma W_C02_mono cs o e : W_C02 o = true -> W_C02 (obs_step cs o e) = true.
+Lemma W2_mono cs o e : W2 o = true -> W2 (obs_step cs o e) = true.
 Proof.
   pose proof (obs_step_flags_mono cs o e) as H. unfold flag_le, windows_of in H.
   inversion H as [|? ? ? ? _ H1]; subst. inversion H1 as [|? ? ? ? Hsd H2]; subst.
   inversion H2 as [|? ? ? ? Hc _]; subst.
-  unfold W_C02. intros E. apply orb_true_iff in E. apply orb_true_iff. destruct E; [left|right]; auto.
+  unfold W2. intros E. apply orb_true_iff in E. apply orb_true_iff. destruct E; [left|right]; auto.
 Qed.
 
-Lemma W_C02_mono_false cs o e : W_C02 (obs_step cs o e) = false -> W_C02 o = false.
-Proof. intros H. destruct (W_C02 o) eqn:E; [|reflexivity]. now rewrite (W_C02_mono cs o e E) in H. Qed.
+Lemma W2_mono_false cs o e : W2 (obs_step cs o e) = false -> W2 o = false.
+Proof. intros H. destruct (W2 o) eqn:E; [|reflexivity]. now rewrite (W2_mono cs o e E) in H. Qed.
 
-Lemma W_oi_upd i f o : W_C02 (oi_upd i f o) = W_C02 o.
+Lemma W_oi_upd i f o : W2 (oi_upd i f o) = W2 o.
 Proof. unfold oi_upd. destruct (get i (oi o)); reflexivity. Qed.
-Lemma W_on_upd n f o : W_C02 (on_upd n f o) = W_C02 o.
+Lemma W_on_upd n f o : W2 (on_upd n f o) = W2 o.
 Proof. unfold on_upd. destruct (get n (onm o)); reflexivity. Qed.
-Lemma W_refresh o : W_C02 (refresh_succ o) = W_C02 o.
+Lemma W_refresh o : W2 (refresh_succ o) = W2 o.
 Proof. reflexivity. Qed.
 
 (* ---- oi_get ------------------------------------------------------------------------------------------ *)
@@ -65,7 +65,7 @@ Lemma fold_upd_inst_proj {A} (P : sys -> A) (f : inst -> inst) l :
   (forall i s, P (upd_inst i f s) = P s) -> forall s, P (fold_left (fun s i => upd_inst i f s) l s) = P s.
 Proof. intros HP. induction l as [|a l IH]; intros s; cbn; [reflexivity|]. now rewrite IH, HP. Qed.
 
-Lemma fold_oi_upd_W (f : oinst -> oinst) l o : W_C02 (fold_left (fun o i => oi_upd i f o) l o) = W_C02 o.
+Lemma fold_oi_upd_W (f : oinst -> oinst) l o : W2 (fold_left (fun o i => oi_upd i f o) l o) = W2 o.
 Proof. revert o. induction l as [|a l IH]; intros o; cbn; [reflexivity|]. now rewrite IH, W_oi_upd. Qed.
 
 Lemma existsb_mem (f : N -> bool) l j : memN j l = true -> f j = true -> existsb f l = true.
@@ -202,3 +202,16 @@ Lemma get_thread_set_pcode v s th : get_thread (s <| proj_code := v |>) th = get
 Lemma get_thread_set_cset v s th : get_thread (s <| code_set := v |>) th = get_thread s th. Proof. reflexivity. Qed.
 #[export] Hint Rewrite get_thread_set_sd get_thread_set_lock get_thread_set_wg get_thread_set_runc get_thread_set_thinst
   get_thread_set_running get_thread_set_donereg get_thread_set_insts get_thread_set_pcode get_thread_set_cset : sup.
+
+(* ---- the larger window set needed for the "no relaunch decision after a stop request" clause -------- *)
+Definition W4 (o : obs) : bool := w_commit o || w_sdlag o || w_dup o || w_zombie o.
+
+Lemma W4_mono cs o e : W4 o = true -> W4 (obs_step cs o e) = true.
+Proof.
+  pose proof (obs_step_flags_mono cs o e) as H. unfold flag_le, windows_of in H.
+  inversion H as [|? ? ? ? Hz H1]; subst. inversion H1 as [|? ? ? ? Hsd H2]; subst.
+  inversion H2 as [|? ? ? ? Hc H3]; subst. inversion H3 as [|? ? ? ? _ H4]; subst.
+  inversion H4 as [|? ? ? ? _ H5]; subst. inversion H5 as [|? ? ? ? Hd _]; subst.
+  unfold W4. intros E. repeat (apply orb_true_iff in E; destruct E as [E|E]);
+    repeat (apply orb_true_iff; (left + right)); auto; fail.
+Qed.
